@@ -96,14 +96,17 @@ Proof.
   unfold r_flush. destruct (r_buf r); [reflexivity|]. destruct (bytes_eqb _ _); reflexivity.
 Qed.
 
+Lemma enter_alt_core_alt r : r_alt (fst (r_enter_alt_core r)) = true.
+Proof. unfold r_enter_alt_core. destruct (r_alt r) eqn:E; [exact E|reflexivity]. Qed.
+
 Lemma enter_alt_alt r : r_alt (fst (r_enter_alt r)) = true.
-Proof. unfold r_enter_alt. destruct (r_alt r) eqn:E; [exact E|reflexivity]. Qed.
+Proof. destruct (enter_alt_cases r) as [E|(_ & _ & E)]; rewrite E; apply enter_alt_core_alt. Qed.
 
 Lemma exit_alt_alt r : r_alt (fst (r_exit_alt r)) = false.
 Proof. unfold r_exit_alt. destruct (r_alt r) eqn:E; [reflexivity|exact E]. Qed.
 
-Lemma enter_alt_buf r : r_buf (fst (r_enter_alt r)) = r_buf r.
-Proof. unfold r_enter_alt. destruct (r_alt r); reflexivity. Qed.
+Lemma enter_alt_buf r : r_queued r = [] -> r_buf (fst (r_enter_alt r)) = r_buf r.
+Proof. intros Hq. rewrite (enter_alt_no_queue r Hq). unfold r_enter_alt_core. destruct (r_alt r); reflexivity. Qed.
 
 Lemma exit_alt_buf r : r_buf (fst (r_exit_alt r)) = r_buf r.
 Proof. unfold r_exit_alt. destruct (r_alt r); reflexivity. Qed.
@@ -186,7 +189,7 @@ Proof.
     + apply Sync_enter_alt. exact S.
     + exact Hp.
     + symmetry. apply enter_alt_alt.
-    + intros v' E. rewrite enter_alt_buf. apply Hl. exact E.
+    + intros v' E. rewrite enter_alt_buf by (destruct S as [_ _ _ Hq0 _ _ _]; exact Hq0). apply Hl. exact E.
   - (* ExitAlt *)
     destruct rz; [discriminate|].
     inversion V; subst alt' rz'. clear V.
